@@ -1,5 +1,7 @@
-from codecmode import run
+import patchmode
 
 
 def main(tier, seed, replay):
-    return run("C07", "c07", tier, seed, replay, "Props.C07", "corr:exclusion (model writer bytes / reader outcome with PathSpec exclusion vs the implementation)")
+    return patchmode.run("C07", tier, seed, replay,
+                         base=dict(mode="c07", prop="Props.C07",
+                                   corr="corr:exclusion (model writer bytes / reader outcome with PathSpec exclusion vs the implementation)"))
